@@ -15,12 +15,11 @@ C19 — "Symbol outlines list every declaration at its real place, findable by n
    every number of files and every number of workers, that the dispatch scheme of Model/Pool sends every
    file index exactly once, in any completion order; `pools_shape` pins the five dispatch loops of the
    code (regenerated table `Gen.workerPools`: loop condition, refill guard, refill index, initial loop,
-   clamp, increments) to exactly that scheme — an off-by-one in a refill index breaks it.
+   clamp, increments) to exactly that scheme — an off-by-one in a refill index breaks it. These two live in
+   Props/Pools.lean, which is also part of the checks of C06 (cross-file references) and C09.
 -/
 import LuaHelper.Spec.Outline
 import LuaHelper.Gen.Symbols
-import LuaHelper.Gen.Pools
-import LuaHelper.Model.Pool
 namespace LuaHelper.C19
 open LuaHelper.Lex LuaHelper.Ast LuaHelper.Bind LuaHelper.Outline
 
@@ -170,67 +169,5 @@ theorem required_locals_declared (b : Block) (n : Bytes) (l : Loc) (e : Option E
   unfold bindChunk
   cases ret <;> simp [bBlock, ho]
 #print axioms required_locals_declared
-
-/-! ### worker-pool dispatch (workspace/symbol, and the four other parallel passes) -/
-open LuaHelper.Pool in
-theorem fm_some {f : Nat → Option Nat} (g : Nat → Nat) : ∀ (l : List Nat), (∀ x ∈ l, f x = some (g x)) →
-    l.filterMap f = l.map g
-  | [], _ => rfl
-  | x :: r, h => by
-    simp [h x (by simp), fm_some g r (fun y hy => h y (by simp [hy]))]
-
-open LuaHelper.Pool in
-theorem fm_none {f : Nat → Option Nat} : ∀ (l : List Nat), (∀ x ∈ l, f x = none) → l.filterMap f = []
-  | [], _ => rfl
-  | x :: r, h => by
-    simp [h x (by simp), fm_none r (fun y hy => h y (by simp [hy]))]
-
-open LuaHelper.Pool in
-/-- with at most as many workers as jobs, every job index is dispatched exactly once, in increasing order -/
-theorem dispatched_eq (n cor : Nat) (h : cor ≤ n) : dispatched n cor = List.range n := by
-  unfold dispatched initial
-  have hn : n = (n - cor) + cor := by omega
-  have e1 : (List.range n).filterMap (refill n cor) = (List.range (n - cor)).map (cor + ·) := by
-    conv => lhs; rw [hn, List.range_add, List.filterMap_append]
-    rw [fm_some (cor + ·) (List.range (n - cor)) (by
-        intro x hx
-        have : x < n - cor := by simpa using hx
-        simp [refill] <;> omega),
-      fm_none _ (by
-        intro x hx
-        simp only [List.mem_map, List.mem_range] at hx
-        obtain ⟨y, hy, rfl⟩ := hx
-        simp [refill] <;> omega)]
-    simp
-  rw [e1]
-  conv => rhs; rw [show n = cor + (n - cor) by omega, List.range_add]
-#print axioms dispatched_eq
-
-open LuaHelper.Pool in
-/-- the property for every number of files and of workers: no file is skipped, none is scanned twice -/
-theorem dispatch_all (n workers : Nat) : dispatched n (clamp n workers) = List.range n := by
-  apply dispatched_eq
-  unfold clamp; split <;> omega
-#print axioms dispatch_all
-
-/-- the same statement with an off-by-one refill index is false (the seeded change `wssymbol-refill-index`) -/
-theorem dispatch_off_by_one_witness :
-    (List.range 3 ++ (List.range 5).filterMap (fun r => if r + 3 < 5 then some (r + 3 - 1) else none)) ≠ List.range 5 := by
-  decide
-#print axioms dispatch_off_by_one_witness
-
-/-- a dispatch loop has the shape of Model/Pool for the job-count expression `jobs` -/
-def poolOk (p : Gen.Pool) (jobs : String) : Bool :=
-  p.loopCond == "recvNum<" ++ jobs && p.guard == "recvNum+corNum<" ++ jobs && p.refillIdx == ["recvNum+corNum"] &&
-  p.initBound == "<corNum" && p.initIdx == ["i"] && p.clamp == jobs ++ "<corNum=>corNum=" ++ jobs && p.incs == 2
-
-/-- the five dispatch loops of the current source are instances of the scheme `dispatch_all` is about -/
-theorem pools_shape :
-    (Gen.workerPools.map (·.func)) = ["firstCreateAndTraverseAst", "handleAllFilesReference", "handleAllFilesSymbols",
-      "handleFiles", "handleProjectEntryFileVec"] ∧
-    (List.zip Gen.workerPools ["len(filesList)", "listLen", "handleFileLen", "listLen", "vecLen"]).all
-      (fun pj => poolOk pj.1 pj.2) = true := by
-  decide
-#print axioms pools_shape
 
 end LuaHelper.C19
